@@ -40,7 +40,7 @@ def run(res, replay=None):
             a = rng.choice([0.0, 0.25, 0.5, 1.0])
             pos = [b for b in bs if b > 0]
             step = rng.choice([0.125, 0.25])
-            cases.append({'spec': s, 'ts': ts, 'extra_times': extra, 'T': rng.choice([0.0, 0.5, 1.0, 2.0, 3.5]),
+            cases.append({'spec': s, 'ts': ts, 'extra_times': extra, 'T': (0.0 if i == 0 else rng.choice([0.0, 0.5, 1.0, 2.0, 3.5])),      # the first case always carries the end time 0
                           'window': [a, a + rng.choice([0.25, 0.5, 1.0, 2.0])],
                           # windows starting exactly on an epoch boundary, as long as the stretch before it
                           'windows': [[b, 2 * b] for b in pos[:2]],
